@@ -37,7 +37,7 @@ def replay(ck, binpath, path):
     data = json.load(open(path))
     for v in data.get("violations", []):
         rc, out, err = ck.run_bin(binpath, ["one", "--case-json", json.dumps(v["case"])])
-        for l in out.splitlines()[1:]:
+        for l in jlines(out)[1:]:
             if l.strip():
                 report(ck)(json.loads(l))
 
